@@ -28,7 +28,7 @@ ASSUMPTIONS = [
     "item fields of typed scalar lists/dicts are not 'fields of a configuration'; only schema fields carry the flag",
 ]
 REQUIRED = ["sensitive:virtual", "mask:none", "mask:empty", "mask:one-char", "mask:multi", "out:tree", "out:document", "sensitive:nested", "sensitive:list-item",
-            "sensitive:configtype", "sensitive:empty-value", "sensitive:list-of-configs"]
+            "sensitive:configtype", "sensitive:empty-value", "sensitive:list-of-configs", "sensitive:set-after-declaration"]
 LEVEL_TEXT = (
     "Generated schemas/values/masks with a model-computed expected tree compared structurally with the masked "
     "rendering (tree and decoded document); kills mutants whose recursion drops the mask, repeats a multi-character "
@@ -63,7 +63,8 @@ def _mark(node, flags, counter):
             f = flags[counter[0] % len(flags)]
             counter[0] += 1
             if f is not None:
-                c = dict(c, sensitive=f)
+                # every other mark is made (or cleared) through the field's public attribute after the declaration
+                c = dict(c, sensitive=f, sensitive_late=counter[0] % 2 == 1 and c["kind"] != "virtual")
         kids.append(c)
     return dict(node, children=kids)
 
@@ -137,6 +138,8 @@ def _expect(world, cfg, plain, mask, R, node=None, where="root"):
                 continue
         if _is_sensitive(child) and mask is not None:
             out[key] = _masked(value, mask)
+            if child.get("sensitive_late"):
+                R.label("sensitive:set-after-declaration")
             if value and kind == "schemalist":
                 R.label("sensitive:list-of-configs")
             if value:
